@@ -1,20 +1,23 @@
 """C18 dumper - runs in a SUBPROCESS: imports one exp2python-generated module against the bundled runtime package and
 prints one JSON document describing what the module defines, as far as the generated code exposes it.
 
-usage: python3 c18_dump.py <module name>     (PYTHONPATH = <repo>/src/exp2python/python : <dir of the module>)
+usage: python3 c18_dump.py <module name> [<construct.json>]   (PYTHONPATH = <repo>/src/exp2python/python : <dir of the module>)
+       construct.json = {class name: [constructor values in Part 21 order]}: each named class is instantiated with the values
+       and every attribute named by a constructor parameter is read back
 
 Output (stdout, one JSON object):
   import_error: [exception class, message, last traceback line]      (only when the import failed; exit status 3)
   order:        top-level binding names in source order (class statements and simple assignments; from the module's AST)
   dups:         names bound more than once at top level
   defs:         {binding name: description}
-     entity class   {kind:'entity', name, bases:[..], mro:[..], params:[..]|None, own_init:bool}
+     entity class   {kind:'entity', name, bases:[..], mro:[..], mro_own:[the classes of mro defined by the module], params:[..]|None, own_init:bool}
      other class    {kind:'class', name, bases:[..], mro:[..]}                (defined types: class label(STRING))
      enumeration    {kind:'enum', name, items:[..]}                            (ENUMERATION functional API)
      select         {kind:'select', members:[..]}
      aggregate      {kind:'aggr', akind, lo, hi, elem: <name | nested aggr description>}
      alias          {kind:'alias', target: name of the object bound (class __name__ or the other binding's name)}
      anything else  {kind:'other', repr}
+  construct:    {class name: {error:[exception class, message]} | {read:[[attribute, value equals the one given, repr of the value read]]}}
 """
 import ast
 import importlib
@@ -62,8 +65,37 @@ def main():
         o = getattr(m, n, None)
         defs[n] = describe(n, o, m, SCLBase, ConstructedDataTypes, BaseType, enum, seen_obj)
     out['defs'] = defs
+    if len(sys.argv) > 2:
+        out['construct'] = construct(m, json.load(open(sys.argv[2])))
     print(json.dumps(out))
     return 0
+
+
+def construct(m, spec):
+    import re
+    res = {}
+    for cname, vals in sorted(spec.items()):
+        cls = getattr(m, cname, None)
+        if not inspect.isclass(cls):
+            continue
+        try:
+            inst = cls(*vals)
+        except BaseException as e:      # noqa - whatever the generated constructor raises is the observation
+            res[cname] = dict(error=[type(e).__name__, str(e)[:300]])
+            continue
+        read = []
+        try:
+            names = [re.sub(r'^inherited\d+__', '', p) for p in list(inspect.signature(cls.__init__).parameters)[1:]]
+        except (TypeError, ValueError):
+            names = []
+        for nm, v in zip(names, vals):
+            try:
+                g = getattr(inst, nm)
+                read.append([nm, bool(g == v), repr(g)[:80]])
+            except BaseException as e:  # noqa
+                read.append([nm, False, '%s: %s' % (type(e).__name__, str(e)[:80])])
+        res[cname] = dict(read=read)
+    return res
 
 
 def describe(n, o, m, SCLBase, CDT, BaseType, enum, seen_obj):
@@ -73,7 +105,8 @@ def describe(n, o, m, SCLBase, CDT, BaseType, enum, seen_obj):
             return dict(kind='alias', target=o.__name__)
         if issubclass(o, enum.Enum):
             return dict(kind='enum', name=o.__name__, items=[x.name for x in o])
-        d = dict(name=o.__name__, bases=[b.__name__ for b in o.__bases__], mro=[c.__name__ for c in o.__mro__])
+        d = dict(name=o.__name__, bases=[b.__name__ for b in o.__bases__], mro=[c.__name__ for c in o.__mro__],
+                 mro_own=[c.__name__ for c in o.__mro__ if c.__module__ == m.__name__])
         if issubclass(o, SCLBase.BaseEntityClass):
             d['kind'] = 'entity'
             d['own_init'] = '__init__' in o.__dict__
